@@ -189,7 +189,7 @@ func controls() map[string]string {
 		sb.WriteString(src)
 	}
 	sb.WriteString(axisControls)
-	return map[string]string{ctlFile: sb.String(), fieldCtlFile: fieldControls}
+	return map[string]string{ctlFile: sb.String(), fieldCtlFile: fieldControls, cellCtlFile: cellControls}
 }
 
 func siteControls(c *props.Ctx, ctl map[string]*site, ax *axisOutcome) {
